@@ -774,8 +774,8 @@ pub fn drive_writedirs(seed: u64, tier: &str, out: &mut Out) {
                 Some(e)
             })
             .collect();
-        for api in ["sync", "async"] {
-            let ev = writedirs_event(&es, 1, None, 0, api);
+        for (api, p0) in [("sync", 0u64), ("async", 0), ("sync", 777), ("async", 12_345)] {
+            let ev = writedirs_event(&es, 1, None, p0, api);
             if ev["first_len"].as_u64() == Some(16257) {
                 ctx.bump("writedirs_exactly_on_budget");
             }
